@@ -706,13 +706,16 @@ func nesting(c *explore.Ctx) {
 	} else if closeOK == 2 {
 		nClose++
 	}
-	inner := []string{"0", "", "[]", "{}", `"s"`, "[ ]"}[c.Choose(6)]
+	innerIdx := c.Choose(6)
+	inner := []string{"0", "", "[]", "{}", `"s"`, "[ ]"}[innerIdx]
 	doc := []byte(strings.Repeat(open, depth) + inner + strings.Repeat(close_, nClose))
 	if kind == 2 {
 		depth *= 2
 	}
 	checkValid(c, fmt.Sprintf("nesting(depth%s10000)", map[bool]string{true: ">", false: "<="}[depth > 10000]), doc)
-	if depth <= 10001 {
+	// Decoding into interfaces costs time quadratic in the depth (seconds at 10^4 levels): the quick tier runs the
+	// consumers on every innermost value at the limit itself and on two of them just below and above it.
+	if depth <= 10001 && (c.Thorough() || depth < 9999 || depth == 10000 || innerIdx == 0 || innerIdx == 2) {
 		consumers(c, doc)
 	}
 	c.NontrivialStr("nest", fmt.Sprint(depth, kind, closeOK, inner))
@@ -733,7 +736,7 @@ func Spec() *explore.Spec {
 			{Name: "unicode-escapes", ShardDepth: 2, Body: unicodeEscapes, Doc: "\\uXXXX with every pair of hex-digit classes at every digit position, at every offset 0..18"},
 			{Name: "numbers", ShardDepth: 3, Body: numbers, Doc: "all strings up to length 6 over {- + 0 1 9 . e E} in 4 contexts"},
 			{Name: "decoder-refill", ShardDepth: 2, Body: decoderRefill, Doc: "streams longer than the Decoder's 32 KiB buffer: first-buffer content class x token class placed at every offset -12..+12 around the refill boundary x 3 stream shapes, framing compared with encoding/json"},
-			{Name: "nesting", ShardDepth: 2, Body: nesting, HangSeconds: 300, Doc: "nesting ladder 1..100000 x 4 container kinds x 6 innermost values (scalar, nothing, empty containers with and without white space) x balanced / missing / surplus closer"},
+			{Name: "nesting", ShardDepth: 4, Body: nesting, HangSeconds: 300, Doc: "nesting ladder 1..100000 x 4 container kinds x 6 innermost values (scalar, nothing, empty containers with and without white space) x balanced / missing / surplus closer"},
 		},
 		Rule: "exhaustive enumeration of byte strings / token sequences over class alphabets plus complete single-deviation sweeps; distinct non-trivial = distinct valid documents (hashed) and sweep blocks",
 		Assumptions: []string{
